@@ -613,6 +613,26 @@ pub fn run(r: &mut Runner) {
     let cfgs = r.tier.n(13, 320);
     r.shrink_budget = 40; // every shrink step runs up to 16 threads
     r.random("thread-stress", 6000, cfgs, gen_thread_case, check_threads);
+    // a few threads each running a fold of several hundred thousand steps at the same time: what one execution may spend is
+    // its own business, not shared with executions that happen to run concurrently
+    r.random(
+        "long-folds-concurrently",
+        8,
+        r.tier.n(1, 6),
+        |u: &mut Chooser| {
+            let n = 650 + u.below(150);
+            let ctx = vec![("r".to_string(), V::List((0..n).map(|k| V::Int(k as i64)).collect()))];
+            let body = |inner: E| E::Macro(Mac::All, b(E::var("r")), "x".into(), vec![inner]);
+            let programs = vec![
+                body(E::Macro(Mac::All, b(E::var("r")), "y".into(), vec![E::Lit(V::Bool(true))])),
+                body(E::Not(b(E::Macro(Mac::Exists, b(E::var("r")), "y".into(), vec![E::bin(Op::Lt, E::var("y"), E::Lit(V::Int(0)))])))),
+                E::call("size", vec![E::Macro(Mac::Map, b(E::var("r")), "x".into(), vec![E::call("size", vec![E::Macro(Mac::Filter, b(E::var("r")), "y".into(), vec![E::Lit(V::Bool(false))])])])]),
+            ];
+            let threads = (0..3 + u.below(3)).map(|t| (vec![], vec![(t % 3, 0u8), ((t + 1) % 3, 0u8)])).collect();
+            ThreadCase { ctx, programs, threads, repeats: 1 }
+        },
+        check_threads,
+    );
     r.shrink_budget = 3000;
     r.expect_class("concatenating-program-re-executed-with-kept-results", 1000);
     r.expect_class("threads-overlapped-on-a-program", 20);
